@@ -94,15 +94,16 @@ type ClientPlan struct {
 	ExtraHdrs   [][2]string `json:"extra_hdrs,omitempty"`
 	GetBase64   *bool       `json:"get_base64,omitempty"`
 	// transport
-	DeclareCL       string  `json:"declare_cl,omitempty"` // "" (exact for unary forms on h1, none for streams) | none | exact | +N | -N | =N
-	Deliveries      []int   `json:"deliveries,omitempty"` // cyclic piece sizes; nil: whole body at once
-	EOFWithData     bool    `json:"eof_with_data,omitempty"`
-	Faults          []Fault `json:"faults,omitempty"`
-	PingPong        bool    `json:"ping_pong,omitempty"`
-	RW              string  `json:"rw,omitempty"`                // flusher | flusherr | unwrap | noflush
-	WriterFailAfter int     `json:"writer_fail_after,omitempty"` // >0: client goes away after this many response bytes
-	CancelAtStep    int     `json:"cancel_at_step,omitempty"`    // >0: request context cancelled at this scheduler step
-	CtxDeadlineS    int     `json:"ctx_deadline_s,omitempty"`    // >0: the request context already carries a deadline that many (real) seconds away, as under http.TimeoutHandler
+	DeclareCL        string  `json:"declare_cl,omitempty"` // "" (exact for unary forms on h1, none for streams) | none | exact | +N | -N | =N
+	Deliveries       []int   `json:"deliveries,omitempty"` // cyclic piece sizes; nil: whole body at once
+	EOFWithData      bool    `json:"eof_with_data,omitempty"`
+	Faults           []Fault `json:"faults,omitempty"`
+	PingPong         bool    `json:"ping_pong,omitempty"`
+	RW               string  `json:"rw,omitempty"`                  // flusher | flusherr | unwrap | noflush
+	WriterFailAfter  int     `json:"writer_fail_after,omitempty"`   // >0: client goes away after this many response bytes
+	CancelAtStep     int     `json:"cancel_at_step,omitempty"`      // >0: request context cancelled at this scheduler step
+	CtxDeadlineS     int     `json:"ctx_deadline_s,omitempty"`      // >0: the request context already carries a deadline that many (real) seconds away, as under http.TimeoutHandler
+	FirstByteDelayMs int     `json:"first_byte_delay_ms,omitempty"` // the request body starts arriving that many simulated milliseconds after the request head
 }
 
 type RPCPlan struct {
